@@ -118,8 +118,70 @@ class StmtMixin:
         return [Out('cont', st)]
 
     # ------------------------------------------------------------------ assignment
+    NONESCAPING_METHODS = {'pop', 'append', 'extend', 'insert', 'index', 'count', 'get', 'items', 'keys', 'values', 'setdefault',
+                           'update', 'remove', 'clear', 'sort', 'reverse'}
+
+    def local_private_container(self, fnode, name):
+        """syntactic escape analysis: the local `name` is bound exactly once, to a freshly built container (str.split, a
+        list/dict/set display, list()/dict()/set()), and every use is a read in place -- receiver of a container method,
+        iteration, truth test, subscript, len()/sorted()/bool(), or the argument of <str>.join -- so no other code can
+        reach the container: unknown code cannot change it"""
+        key = (id(fnode), name)
+        cache = self.__dict__.setdefault('_private_cache', {})
+        if key in cache:
+            return cache[key]
+        parent = {}
+        for n in ast.walk(fnode):
+            for ch in ast.iter_child_nodes(n):
+                parent[ch] = n
+        stores = [n for n in ast.walk(fnode) if isinstance(n, ast.Name) and n.id == name and isinstance(n.ctx, (ast.Store, ast.Del))]
+        ok = len(stores) == 1 and isinstance(parent.get(stores[0]), ast.Assign) and len(parent[stores[0]].targets) == 1
+        if ok:
+            v = parent[stores[0]].value
+            ok = isinstance(v, (ast.List, ast.Dict, ast.Set)) or (
+                isinstance(v, ast.Call) and ((isinstance(v.func, ast.Attribute) and v.func.attr == 'split')
+                                             or (isinstance(v.func, ast.Name) and v.func.id in ('list', 'dict', 'set') and not v.args)))
+        if ok and any(isinstance(n, (ast.FunctionDef, ast.AsyncFunctionDef, ast.Lambda)) and n is not fnode
+                      and any(isinstance(m, ast.Name) and m.id == name for m in ast.walk(n)) for n in ast.walk(fnode)):
+            ok = False      # captured by a closure
+        if ok:
+            for n in ast.walk(fnode):
+                if not (isinstance(n, ast.Name) and n.id == name and isinstance(n.ctx, ast.Load)):
+                    continue
+                p_ = parent.get(n)
+                good = False
+                if isinstance(p_, ast.Attribute) and p_.value is n and p_.attr in self.NONESCAPING_METHODS \
+                        and isinstance(parent.get(p_), ast.Call) and parent[p_].func is p_:
+                    good = True
+                elif isinstance(p_, (ast.For, ast.comprehension)) and p_.iter is n:
+                    good = True
+                elif isinstance(p_, (ast.If, ast.While, ast.IfExp)) and p_.test is n:
+                    good = True
+                elif isinstance(p_, ast.UnaryOp) and isinstance(p_.op, ast.Not):
+                    good = True
+                elif isinstance(p_, ast.BoolOp) and isinstance(parent.get(p_), (ast.If, ast.While)):
+                    good = True
+                elif isinstance(p_, ast.Subscript) and p_.value is n:
+                    good = True
+                elif isinstance(p_, ast.Call) and n in p_.args and isinstance(p_.func, ast.Name) and p_.func.id in ('len', 'sorted', 'bool', 'tuple'):
+                    good = True
+                elif isinstance(p_, ast.Call) and n in p_.args and isinstance(p_.func, ast.Attribute) and p_.func.attr == 'join':
+                    good = True
+                if not good:
+                    ok = False
+                    break
+        cache[key] = ok
+        return ok
+
     def ex_Assign(self, st, s):
         def k(st2, v):
+            if len(s.targets) == 1 and isinstance(s.targets[0], ast.Name) and isinstance(v, SV) and st2.frame is not None \
+                    and st2.frame.fi is not None and st2.ghost.get('OWN') is not None \
+                    and self.local_private_container(st2.frame.fi.node, s.targets[0].id):
+                # a container no other code can reach (syntactic escape analysis): unknown code leaves it alone
+                st2 = st2.copy()
+                st2.ghost['OWN'] = z3.Store(st2.ghost['OWN'], r_of(v.term), TRUE)
+                self.note(f'local container `{s.targets[0].id}` of {st2.frame.fi.qualname} does not escape (syntactic analysis): not affected by unknown code')
             outs = [Out('ok', st2)]
             for tgt in s.targets:
                 nxt = []
@@ -583,9 +645,13 @@ class StmtMixin:
                 # Sequence protocol: iterate by index until IndexError; handled as seq of calls -> needs invariant
                 return self.for_getitem(st, it, s, inv)
             if c is not None and c.qualname in ('list', 'tuple'):
+                seq_ = self.list_seq(st, r_of(it.term))
+                if self.entails(st, z3.Length(seq_) == 0, 1500):
+                    # an empty sequence: the body never runs (no invariant needed, nothing forgotten)
+                    return self.ex_block(st, s.orelse) if s.orelse else [Out('ok', st)]
                 if inv is None:
                     raise Unsupported(f'loop #{self.loop_ordinal(s)} in {fi.qualname} needs a loop invariant', s)
-                return self.for_seq(st, self.list_seq(st, r_of(it.term)), s, inv, None)
+                return self.for_seq(st, seq_, s, inv, None)
             if c is not None and c.qualname in ('dict', 'set', 'frozenset'):
                 if inv is None:
                     raise Unsupported(f'loop #{self.loop_ordinal(s)} in {fi.qualname} needs a loop invariant', s)
